@@ -53,7 +53,20 @@ func sortQueuesByPriority(queues []*Queue) {
 	})
 }
 
+// fairMaxByQueue maps each queue to its fair max resource: the sort moves the queues but not the fair max list,
+// the comparators must therefore never index the fair max list with a position in the queue list.
+func fairMaxByQueue(queues []*Queue, fairMaxResources []*resources.Resource) map[*Queue]*resources.Resource {
+	fairMax := make(map[*Queue]*resources.Resource, len(queues))
+	for i, queue := range queues {
+		if i < len(fairMaxResources) {
+			fairMax[queue] = fairMaxResources[i]
+		}
+	}
+	return fairMax
+}
+
 func sortQueuesByPriorityAndFairness(queues []*Queue, fairMaxResources []*resources.Resource) {
+	fairMax := fairMaxByQueue(queues, fairMaxResources)
 	sort.SliceStable(queues, func(i, j int) bool {
 		l := queues[i]
 		r := queues[j]
@@ -66,8 +79,8 @@ func sortQueuesByPriorityAndFairness(queues []*Queue, fairMaxResources []*resour
 			return false
 		}
 
-		comp := resources.CompUsageRatioSeparately(l.GetAllocatedResource(), l.GetGuaranteedResource(), fairMaxResources[i],
-			r.GetAllocatedResource(), r.GetGuaranteedResource(), fairMaxResources[j])
+		comp := resources.CompUsageRatioSeparately(l.GetAllocatedResource(), l.GetGuaranteedResource(), fairMax[l],
+			r.GetAllocatedResource(), r.GetGuaranteedResource(), fairMax[r])
 
 		if comp == 0 {
 			return resources.StrictlyGreaterThan(resources.Sub(l.GetPendingResource(), r.GetPendingResource()), resources.Zero)
@@ -77,12 +90,13 @@ func sortQueuesByPriorityAndFairness(queues []*Queue, fairMaxResources []*resour
 }
 
 func sortQueuesByFairnessAndPriority(queues []*Queue, fairMaxResources []*resources.Resource) {
+	fairMax := fairMaxByQueue(queues, fairMaxResources)
 	sort.SliceStable(queues, func(i, j int) bool {
 		l := queues[i]
 		r := queues[j]
 
-		comp := resources.CompUsageRatioSeparately(l.GetAllocatedResource(), l.GetGuaranteedResource(), fairMaxResources[i],
-			r.GetAllocatedResource(), r.GetGuaranteedResource(), fairMaxResources[j])
+		comp := resources.CompUsageRatioSeparately(l.GetAllocatedResource(), l.GetGuaranteedResource(), fairMax[l],
+			r.GetAllocatedResource(), r.GetGuaranteedResource(), fairMax[r])
 		if comp == 0 {
 			lPriority := l.GetCurrentPriority()
 			rPriority := r.GetCurrentPriority()
